@@ -62,6 +62,9 @@ def run_world(aiu, w, prefix=(), expect=None):
                     await asyncio.sleep(gap)
                 submitted.append((sched.now, 'loop', x))
                 buf(x)
+            if w.get('own_wait') is not None:       # the loop thread itself forces a flush
+                await asyncio.sleep(w['own_wait'])
+                await buf.wait(cancel=True)
             await asyncio.sleep(w.get('settle', 8 * T))
             shared['over'] = True
         asyncio.run(main(), loop_factory=lambda: sched.new_loop('L'))
@@ -190,6 +193,13 @@ def worlds(tier, with_wait):
                                 if not q and own and len(subs) == 1 and not dur and not fails:
                                     pb = 2
                                 out.append((wld, pb))
+    # the loop thread flushes with wait(); a foreign thread submits at the instant that flush call returns
+    for ow in (0.0, T / 4):
+        for dur in (0.0, T / 4):
+            for subs in ([('put', 1)], [('map', (1, 2))]):
+                for wait in ((None,) if not with_wait else (True,)):
+                    out.append(({'own': [(0.0, 100)], 'own_wait': ow, 'dur': dur, 'fails': (),
+                                 'foreign': [{'offset': ow + dur, 'subs': subs, 'wait': wait}]}, 2))
     # two foreign threads
     for o2 in (0.0, T):
         for wait in ((None,) if not with_wait else (True,)):
